@@ -673,10 +673,10 @@ def c10(ctx):
     if ctx.quick:
         plan = [("tsan", k, 6 + k % 3, 2500) for k in range(14)] + [("asan", 100 + k, 6, 4000) for k in range(4)]
     else:
-        plan = [("tsan", k, 6 + k % 3, 6000) for k in range(160)] + [("asan", 1000 + k, 8, 8000) for k in range(32)]
+        plan = [("tsan", k, 6 + k % 3, 6000) for k in range(96)] + [("asan", 1000 + k, 8, 8000) for k in range(32)]
         try:
             build.build_lib("ctsan")
-            plan += [("ctsan", 5000 + k, 6 + k % 3, 4000) for k in range(32)]
+            plan += [("ctsan", 5000 + k, 6 + k % 3, 1500) for k in range(16)]
         except build.BuildError:
             pass
     logdir = os.path.join(ctx.scratch, "sanlogs")
